@@ -15,9 +15,12 @@ pub struct C18P;
 pub static C18: C18P = C18P;
 
 static CALLS: AtomicUsize = AtomicUsize::new(0);
+/// what the continuing callback was handed: (length of `input_at_malformation`, malformation_length)
+static SEEN: std::sync::Mutex<Vec<(usize, u8)>> = std::sync::Mutex::new(Vec::new());
 
-fn cb_continue(_: u8, _: u8, _: &[u8], out: &mut String) -> ControlFlow<Cow<'static, str>> {
+fn cb_continue(len: u8, _: u8, at: &[u8], out: &mut String) -> ControlFlow<Cow<'static, str>> {
     CALLS.fetch_add(1, Ordering::SeqCst);
+    SEEN.lock().unwrap().push((at.len(), len));
     out.push('?');
     ControlFlow::Continue(())
 }
@@ -79,6 +82,7 @@ pub enum Dec {
 
 fn run_decode(bytes: &[u8], trap: Trap) -> (Dec, usize) {
     CALLS.store(0, Ordering::SeqCst);
+    SEEN.lock().unwrap().clear();
     let mut d = YamlDecoder::read(bytes);
     d.encoding_trap(trap.to_lib());
     let r = d.decode();
@@ -214,6 +218,27 @@ pub fn check_bytes(info: &mut CaseInfo, bytes: &[u8], trap: Trap) -> CheckResult
         Trap::CallContinue => {
             ensure!(!matches!(got, Dec::Decode(_)), "lenient-trap-errors", "a continuing callback must not produce a decode error: {got:?} for {}", hex(bytes));
             ensure!((calls > 0) == malformed, "callback-count", "bytes {} malformed={malformed} but the callback ran {calls} times", hex(bytes));
+            // the callback is handed the input *at the malformation*: successive calls move forward
+            // through the input, each sequence is 1..4 bytes inside it, and (UTF-8 input) what is
+            // left when the reported sequences are cut out is well-formed
+            let seen = SEEN.lock().unwrap().clone();
+            let mut last_start: Option<usize> = None;
+            let mut cut = vec![false; bytes.len()];
+            for (rest, len) in &seen {
+                ensure!(*rest <= bytes.len() && *len >= 1 && (*len as usize) <= *rest, "callback-arguments", "callback got a slice of {rest} bytes with malformation_length {len} for input {}", hex(bytes));
+                let start = bytes.len() - rest;
+                ensure!(last_start.map(|l| start > l).unwrap_or(true), "callback-arguments", "callback slices do not move forward through the input ({last_start:?} then {start}) for {}", hex(bytes));
+                last_start = Some(start);
+                for c in cut.iter_mut().skip(start).take(*len as usize) {
+                    *c = true;
+                }
+            }
+            let utf8 = !(bytes.starts_with(&[0xFF, 0xFE]) || bytes.starts_with(&[0xFE, 0xFF]) || (bytes.len() > 1 && bytes[0] != bytes[1] && (bytes[0] == 0 || bytes[1] == 0)));
+            if utf8 && malformed {
+                let body = if bytes.starts_with(&[0xEF, 0xBB, 0xBF]) { 3 } else { 0 };
+                let rest: Vec<u8> = bytes.iter().enumerate().skip(body).filter(|(i, _)| !cut[*i]).map(|(_, b)| *b).collect();
+                ensure!(std::str::from_utf8(&rest).is_ok(), "callback-arguments", "with the sequences reported to the callback removed, the input {} is still not UTF-8", hex(bytes));
+            }
         }
         Trap::CallBreakMsg => {
             if malformed {
@@ -327,7 +352,7 @@ impl Property for C18P {
          callback never invoked. (b) every byte string up to the stated length over {00,0A,20,2D,41,80,C3,E4,FE,FF} x 6 trap modes \
          (strict, ignore, replace, callback continue / break with message / break with empty message), plus random, truncated and \
          bit-flipped encodings: the call returns (block watchdog; a non-terminating case is isolated and reported), strict + malformed => \
-         decode error, ignore / replace / continuing callback never a decode error, breaking callback => its message, well-formed => same \
+         decode error, ignore / replace / continuing callback never a decode error, the callback's input slices move forward and (UTF-8) cover exactly the malformed sequences, breaking callback => its message, well-formed => same \
          documents as std decoding + load_from_str. Malformedness is decided with std (from_utf8 / decode_utf16) after the documented \
          BOM / NUL-pattern detection. Non-trivial = non-UTF-8 encoding with a non-ASCII char, or malformed bytes; distinct by (bytes, trap)."
             .into()
